@@ -32,6 +32,8 @@ val mul : nat -> nat -> nat
 
 val sub : nat -> nat -> nat
 
+val eqb : bool -> bool -> bool
+
 module Nat :
  sig
   val eqb : nat -> nat -> bool
@@ -1129,3 +1131,7 @@ val leaf_rt_b : oracle -> oracle2 -> expr -> bool
 val field_rt_b : oracle -> oracle2 -> expr -> bool
 
 val ki_b : oracle -> oracle2 -> expr -> bool
+
+val sk_e : expr -> expr -> bool
+
+val sk_v : value -> value -> bool
